@@ -43,7 +43,7 @@ CHECKS = {
              "bytes, late content), replayed transition by transition on the real protocol; random cut sets beyond the model "
              "validated by TLC."
              " C07 is relational: every non-conforming execution is re-run with the same bytes at the same instants under other segmentations and must end the same; request lines are IRIs half of the time so that cut points fall inside multi-byte characters and escapes."
-             " titan_segmentation: the real FileUploadHandler (limit, tokens, media types) behind an allowing / refusing chain, six segmentations per upload, same wire bytes and same tree; TlsPump.RequestAnswered: a request sharing a read with the client's close_notify is answered (deviation DevCloseBeforeDeliver must be caught).",
+             " titan_segmentation: the real FileUploadHandler (limit, tokens, media types) behind an allowing / refusing chain, six segmentations per upload, same wire bytes and same tree; TlsPump.RequestAnswered (a request sharing a read with the client's close_notify is answered) is checked in the design model and reported as drift on the code: it is not claimed for C07, because a client that closes with its request has disconnected first.",
         note="Trusted: as C01. The ciphertext level (TCP reads cutting TLS records, application data coalesced with the end of "
              "the handshake) is decided by the TlsPump replay, run in the same check with PlainInOrder / PlainComplete."),
     "C15": dict(
